@@ -484,6 +484,24 @@ def _returned_first_tuple_consts(f):
 
 # --------------------------------------------------------------- A1.strict
 
+def _stmt_blocks(fnode):
+    out = []
+
+    def rec(stmts):
+        out.append(stmts)
+        for s_ in stmts:
+            if isinstance(s_, (ast.FunctionDef, ast.ClassDef)):
+                continue
+            for f_ in ('body', 'orelse', 'finalbody'):
+                b_ = getattr(s_, f_, None)
+                if isinstance(b_, list) and b_ and isinstance(b_[0], ast.stmt):
+                    rec(b_)
+            for h_ in getattr(s_, 'handlers', []) or []:
+                rec(h_.body)
+    rec(fnode.body)
+    return out
+
+
 def bool_strictness(ctx, inst):
     """Decision table of a registered BOOLEAN decoder over the content octet.
 
@@ -494,6 +512,40 @@ def bool_strictness(ctx, inst):
         raise AnalysisError('no valueDecoder on %s' % inst.ci.short)
     table = dict((b, 'data') for b in range(256))
     found = False
+    # outcome table of the statements that follow the definition of the content octet (however the guard is written)
+    try:
+        from sa import region
+        for blk in _stmt_blocks(m.node):
+            idx = [i for i, st in enumerate(blk) if isinstance(st, ast.Assign) and len(st.targets) == 1 and isinstance(st.targets[0], ast.Name)
+                   and isinstance(st.value, ast.Call) and isinstance(st.value.func, ast.Name) and st.value.func.id in ('oct2int', 'ord')]
+            if not idx:
+                continue
+            var = blk[idx[0]].targets[0].id
+
+            def stop(st, env):
+                if isinstance(st, (ast.For, ast.Return)) or any(isinstance(x, ast.Yield) for x in ast.walk(st)):
+                    return 'end'
+                return None
+            tab = {}
+            for b in range(256):
+                lab, env = region.walk(blk[idx[0] + 1:], {var: b, 'length': 1}, stop)
+                if lab is not None and lab.startswith('raise'):
+                    tab[b] = 'raise'
+                    continue
+                out = 'data'
+                if lab == 'end':
+                    endst = [st for st in blk[idx[0] + 1:] if stop(st, {})]
+                    for c_ in ast.walk(endst[0]) if endst else []:
+                        if isinstance(c_, ast.Call) and isinstance(c_.func, ast.Attribute) and c_.func.attr == '_createComponent' and len(c_.args) >= 3:
+                            try:
+                                out = ('const', intexpr.ev(c_.args[2], env))
+                            except intexpr.NotPure:
+                                out = 'data'
+                tab[b] = out
+            if any(v == 'raise' for v in tab.values()):
+                return tab, m, True
+    except region.Undecided:
+        pass
     octet_vars = set(norm(a.targets[0]) for a in walk_own(m.node) if isinstance(a, ast.Assign) and len(a.targets) == 1 and
                      isinstance(a.value, ast.Call) and isinstance(a.value.func, ast.Name) and a.value.func.id in ('oct2int', 'ord'))
     for n in walk_own(m.node):
